@@ -59,7 +59,7 @@ func harnessOverlay(repoDir, harnessDir string) (map[string][]byte, []string, er
 		files = append(files, target)
 		// store harnesses named both_*.go are instantiated for the Postgres backend as well
 		if strings.HasPrefix(base, "both_") && strings.HasSuffix(dir, "store/sqlite") {
-			pg := strings.NewReplacer("package sqlite", "package postgres", "SqliteStoreWorker", "PostgresStoreWorker", "\"sqlite\"", "\"postgres\"").Replace(string(b))
+			pg := strings.NewReplacer("package sqlite", "package postgres", "SqliteStoreWorker", "PostgresStoreWorker", "SqliteStore", "PostgresStore", "\"sqlite\"", "\"postgres\"").Replace(string(b))
 			t2 := filepath.Join(repoDir, filepath.Dir(dir), "postgres", "zz_verif_"+base)
 			ov[t2] = []byte(pg)
 			files = append(files, t2)
